@@ -297,7 +297,24 @@ def randomLine (line : String) : String :=
           | none => "BAD trace | " ++ line
           | some t =>
             if !contractOk t then "BAD contract | " ++ line else
-            if key == "rii" then
+            if key == "qf" then
+              match a, v, u1 with
+              | [_, _, kind, x, y], [num, den], [num2, den2] =>
+                let bq := qfBound x y
+                let pre := if kind ≤ 1 then decide (1 ≤ x) else decide (0 < y) && decide ((if kind == 3 then 2 else 1) ≤ bq.num) && decide (2 ≤ bq.den)
+                if !pre then "PRE" else
+                let nb : Int := if kind ≤ 1 then 2 ^ x.toNat else bq.num
+                let db : Int := if kind ≤ 1 then 2 ^ x.toNat else bq.den
+                -- canonical rational (positive denominator, lowest terms), inside the requested bounds, non-zero where promised,
+                -- and the same from the same generator state whatever the destination held
+                let specOk := decide (0 < den) && decide (Int.gcd num den = 1) && decide (0 ≤ num) && decide (num < nb) && decide (den < db)
+                              && (kind % 2 == 0 || decide (num ≠ 0)) && num2 == num && den2 == den
+                let m := qfRandomD trGen kind.toNat x y (t.length + 1) ⟨0, 1⟩ ⟨t, true⟩
+                match m with
+                | some (q, g) => verdict specOk (q.num == num && q.den == den && g.ok && g.rest.isEmpty) (hexInt q.num ++ " " ++ hexInt q.den) line
+                | none => verdict specOk false "NONE" line
+              | _, _, _ => "BAD qf | " ++ line
+            else if key == "rii" then
               match a with
               | [_, _, u, e, how, b, k, old] =>
                 let ub := u != 0
